@@ -82,10 +82,20 @@ where
     let roots = corpus_roots();
     let mut rng = Rng::new(seed, 1000 + shard as u64);
 
-    // (1) DFS over every root to a fixed depth, roots dealt round-robin to shards
+    // (1) DFS over every root to a fixed depth. Work is dealt by (root, first move) so that the shards
+    // are balanced; the root position itself goes with its first move.
     if cfg.dfs_depth > 0 {
-        for (i, root) in roots.iter().enumerate() {
-            if i % shards != shard {
+        let mut task = 0usize;
+        for root in roots.iter() {
+            let first_moves = root.legal_moves();
+            let mut mine: Vec<usize> = vec![];
+            for i in 0..first_moves.len().max(1) {
+                if task % shards == shard {
+                    mine.push(i);
+                }
+                task += 1;
+            }
+            if mine.is_empty() {
                 continue;
             }
             let Some(mut g) = game_from_pos(root) else {
@@ -96,7 +106,21 @@ where
                 moves: vec![],
                 origin: "dfs",
             };
-            dfs(&mut g, root, cfg.dfs_depth, &mut trail, l, &mut f);
+            if mine.contains(&0) {
+                if !f(&g, root, &trail, l) {
+                    continue;
+                }
+            }
+            for i in mine {
+                let Some(m) = first_moves.get(i) else { continue };
+                let Some(e) = find_engine_move(&g, *m) else { continue };
+                g.make_move(e);
+                trail.moves.push(m.uci());
+                let n = root.make(*m);
+                dfs(&mut g, &n, cfg.dfs_depth - 1, &mut trail, l, &mut f);
+                trail.moves.pop();
+                g.undo_move();
+            }
         }
     }
 
